@@ -105,7 +105,7 @@ REACH = ['GenericModel.py:GenericModel.save', 'GenericModel.py:GenericModel.load
          'thermo/Surrogate.py:BinarySurrogate.getInterfacialComposition', 'thermo/Surrogate.py:MulticomponentSurrogate.curvatureFactor',
          'thermo/Surrogate.py:MulticomponentSurrogate.getGrowthAndInterfacialComposition',
          'thermo/Surrogate.py:MulticomponentSurrogate.impingementFactor']
-NCASES = {'quick': {'precip': 54, 'diffusion': 36, 'surrogate': 25}, 'thorough': {'precip': 900, 'diffusion': 540, 'surrogate': 301}}
+NCASES = {'quick': {'precip': 54, 'diffusion': 36, 'surrogate': 40}, 'thorough': {'precip': 900, 'diffusion': 540, 'surrogate': 390}}
 MIN_NONTRIVIAL = {'quick': 150, 'thorough': 2500}
 CASE_TIMEOUT = 600
 CASE_TIMEOUT_THOROUGH = 900
@@ -295,11 +295,14 @@ def _plan_diffusion(rng, n, tier):
 
 
 def _plan_surrogate(rng, n, tier):
-    D = {'family': _deck(rng, ['binary', 'multi'], n - 1), 'logX': _deck(rng, [False, True], n - 1),
-         'broadcast': _deck(rng, [True, False], n - 1), 'kernel': _deck(rng, KERNELS, n - 1),
-         'nT': _deck(rng, [1, 2, 3, 2, 3], n - 1)}
+    n_mp, n_fe = (6, 9) if tier == 'quick' else (30, 60)       # Al-Mg-Si (two precipitate phases) / Fe-Cr-Ni (two phases with mobilities)
+    fams = _deck(rng, ['binary', 'multi'], n - n_mp - n_fe) + ['multiphase'] * n_mp + ['fecrni'] * n_fe
+    m = len(fams)
+    D = {'logX': _deck(rng, [False, True], m), 'broadcast': _deck(rng, [True, False], m), 'kernel': _deck(rng, KERNELS, m),
+         'nT': _deck(rng, [1, 2, 3, 2, 3], m)}
+    which = [[1], [0, 1], [0]]                                  # trained phases: only the second, both, only the first admissible value
     cases = []
-    for i in range(n - 1):
+    for i, fam in enumerate(fams):
         bc = D['broadcast'][i]
         nT = D['nT'][i]
         if bc:
@@ -311,11 +314,15 @@ def _plan_surrogate(rng, n, tier):
             npts = None
         else:
             nx, npts = None, int(rng.integers(6, 16))
-        cases.append({'kind': 'surrogate', 'family': D['family'][i], 'logX': bool(D['logX'][i]), 'broadcast': bool(bc),
-                      'kernel': dict(D['kernel'][i]), 'nT': int(nT), 'nx': nx, 'npts': npts, 'ng': int(rng.integers(3, 7)),
-                      'weight': 10.0 if D['family'][i] == 'multi' else 5.0})
-    cases.append({'kind': 'surrogate', 'family': 'multiphase', 'logX': False, 'broadcast': True, 'kernel': dict(KERNELS[0]),
-                  'nT': 2, 'nx': 4, 'npts': None, 'ng': 3, 'weight': 12.0})
+        c = {'kind': 'surrogate', 'family': fam, 'logX': bool(D['logX'][i]), 'broadcast': bool(bc),
+             'kernel': dict(D['kernel'][i]), 'nT': int(nT), 'nx': nx, 'npts': npts,
+             'ng': int(rng.integers(3, 7)), 'train_prec': [0], 'train_diff': [0],
+             'weight': {'binary': 5.0, 'multi': 10.0, 'multiphase': 8.0, 'fecrni': 5.0}[fam]}
+        if fam == 'multiphase':
+            c['train_prec'] = which[i % 3]
+        if fam == 'fecrni':
+            c['train_diff'] = which[i % 3]
+        cases.append(c)
     return cases
 
 
@@ -697,27 +704,40 @@ def _colscale(y):
 
 
 class _Fam:
-    """what differs between the two surrogate families"""
+    """what differs between the surrogate families.
+    precs: every admissible explicit precPhase value; dphase_names: every admissible explicit phase value of the
+    diffusivity getters (None: only the matrix phase therm.phases[0] carries mobility data)."""
 
     def __init__(self, case):
         self.case = case
         self.family = case['family']
+        self.dphase_names = None
         if self.family == 'binary':
             self.system, self.phases, self.binary = 'alzr', None, True
-            self.prec = 'AL3ZR'
+            self.precs = ['AL3ZR']
         elif self.family == 'multi':
             self.system, self.phases, self.binary = 'nialcr', None, False
-            self.prec = 'FCC_L12'
-        else:
+            self.precs = ['FCC_L12']
+        elif self.family == 'multiphase':
             self.system, self.phases, self.binary = 'almgsi', ['MGSI_B_P', 'MG5SI6_B_DP'], False
-            self.prec = 'MGSI_B_P'
+            self.precs = ['MGSI_B_P', 'MG5SI6_B_DP']
+        else:                       # 'fecrni': GeneralSurrogate on two matrix-like phases that both have mobility data
+            self.system, self.phases, self.binary = 'fecrni', None, False
+            self.precs = []
+            self.dphase_names = ['FCC_A1', 'BCC_A2']
+        self.prec = self.precs[0] if self.precs else None
 
     def therm(self):
+        if self.family == 'fecrni':
+            from kawin.thermo import GeneralThermodynamics
+            import kawin.tests.datasets as ds
+            return GeneralThermodynamics(ds.FECRNI_DB, ['FE', 'CR', 'NI'], ['FCC_A1', 'BCC_A2'])      # TDB string: fresh database
         return precip.make_therm(self.system, self.phases)
 
     def surrogate(self, th):
         from kawin.thermo import BinarySurrogate, MulticomponentSurrogate
-        cls = BinarySurrogate if self.binary else MulticomponentSurrogate
+        from kawin.thermo.Surrogate import GeneralSurrogate
+        cls = GeneralSurrogate if self.family == 'fecrni' else (BinarySurrogate if self.binary else MulticomponentSurrogate)
         return cls(th, kernelKwargs=dict(self.case['kernel']))
 
     # ---- admissible windows
@@ -731,6 +751,11 @@ class _Fam:
             c = float(rng.uniform(0.06, 0.07))
             return {'x': [(a, a + float(rng.uniform(0.02, 0.035))), (c, c + float(rng.uniform(0.02, 0.03)))],
                     'T': (float(rng.uniform(1000, 1040)), float(rng.uniform(1070, 1110)))}
+        if self.family == 'fecrni':
+            a = float(rng.uniform(0.18, 0.22))
+            c = float(rng.uniform(0.03, 0.04))
+            return {'x': [(a, a + float(rng.uniform(0.06, 0.10))), (c, c + float(rng.uniform(0.02, 0.04)))],
+                    'T': (float(rng.uniform(1150, 1220)), float(rng.uniform(1320, 1400)))}
         return {'x': [(0.006, 0.009), (0.005, 0.008)], 'T': (440.0, 470.0)}
 
     def grid(self, rng, box):
@@ -791,32 +816,51 @@ class _Fam:
         return x, T, g
 
 
-def _untrained_calls(F, rng, box, only=None):
-    """(group, getter name, args, kwargs): documented call forms of every getter"""
+def _sel(values, v):
+    """structural label of a phase argument: default / first / other (position in the list of admissible values)"""
+    if v is None:
+        return 'default'
+    return 'explicit_first' if (not values or v == values[0]) else 'explicit_other'
+
+
+def _untrained_calls(F, rng, box, dnames, precs=None, dphases=None, default_prec=True, default_diff=True, groups=None):
+    """(group, getter name, args, kwargs, phase label): documented call forms of every getter, with the phase / precPhase
+    argument left out (if asked for) and with EVERY admissible explicit value in precs / dphases"""
     x, T, g = F.random_points(rng, box, 3)
     x0 = float(x[0]) if F.binary else np.array(x[0])
-    calls = [('drivingForce', 'getDrivingForce', (x, T), {}),
-             ('drivingForce', 'getDrivingForce', (x0, float(T[0])), {'precPhase': F.prec}),
-             ('drivingForce', 'getDrivingForce', (x, float(T[1])), {'removeCache': True})]
-    if F.binary:
-        calls += [('interfacialComposition', 'getInterfacialComposition', (T, g), {}),
-                  ('interfacialComposition', 'getInterfacialComposition', (float(T[0]), g), {'precPhase': F.prec}),
-                  ('interfacialComposition', 'getInterfacialComposition', (float(T[1]),), {})]
-    else:
-        R_ = np.array([0.6e-9, 1e-9, 3e-9])
-        gE = 2 * 0.023 * 6.57e-6 / R_
-        calls += [('curvature', 'curvatureFactor', (x0, float(T[0])), {}),
-                  ('curvature', 'curvatureFactor', (np.array(x[1]), float(T[1])), {'precPhase': F.prec, 'removeCache': True}),
-                  ('growth', 'getGrowthAndInterfacialComposition', (x0, float(T[0]), 900.0, R_, gE), {}),
-                  ('growth', 'getGrowthAndInterfacialComposition', (np.array(x[2]), float(T[2]), 400.0, 1e-9, 1000.0), {'precPhase': F.prec}),
-                  ('impingement', 'impingementFactor', (x0, float(T[0])), {}),
-                  ('impingement', 'impingementFactor', (np.array(x[1]), float(T[1])), {'precPhase': F.prec})]
-    calls += [('interdiffusivity', 'getInterdiffusivity', (x, T), {}),
-              ('interdiffusivity', 'getInterdiffusivity', (x0, float(T[0])), {'removeCache': False}),
-              ('tracerDiffusivity', 'getTracerDiffusivity', (x, T), {}),
-              ('tracerDiffusivity', 'getTracerDiffusivity', (x0, float(T[0])), {})]
-    if only is not None:
-        calls = [c for c in calls if c[0] in only]
+    precs = F.precs if precs is None else precs
+    dphases = dnames if dphases is None else dphases
+    calls = []
+    pk = ([None] if (default_prec and F.precs) else []) + list(precs)
+    for p in pk:
+        kw = {} if p is None else {'precPhase': p}
+        lab = _sel(F.precs, p)
+        calls += [('drivingForce', 'getDrivingForce', (x, T), dict(kw), lab),
+                  ('drivingForce', 'getDrivingForce', (x0, float(T[0])), dict(kw), lab),
+                  ('drivingForce', 'getDrivingForce', (x, float(T[1])), dict(kw, removeCache=True), lab)]
+        if F.binary:
+            calls += [('interfacialComposition', 'getInterfacialComposition', (T, g), dict(kw), lab),
+                      ('interfacialComposition', 'getInterfacialComposition', (float(T[0]), g), dict(kw), lab),
+                      ('interfacialComposition', 'getInterfacialComposition', (float(T[1]),), dict(kw), lab)]
+        else:
+            R_ = np.array([0.6e-9, 1e-9, 3e-9])
+            gE = 2 * 0.023 * 6.57e-6 / R_
+            calls += [('curvature', 'curvatureFactor', (x0, float(T[0])), dict(kw), lab),
+                      ('curvature', 'curvatureFactor', (np.array(x[1]), float(T[1])), dict(kw, removeCache=True), lab),
+                      ('growth', 'getGrowthAndInterfacialComposition', (x0, float(T[0]), 900.0, R_, gE), dict(kw), lab),
+                      ('growth', 'getGrowthAndInterfacialComposition', (np.array(x[2]), float(T[2]), 400.0, 1e-9, 1000.0), dict(kw), lab),
+                      ('impingement', 'impingementFactor', (x0, float(T[0])), dict(kw), lab),
+                      ('impingement', 'impingementFactor', (np.array(x[1]), float(T[1])), dict(kw), lab)]
+    dk = ([None] if default_diff else []) + list(dphases)
+    for ph in dk:
+        kw = {} if ph is None else {'phase': ph}
+        lab = _sel(dnames, ph)
+        calls += [('interdiffusivity', 'getInterdiffusivity', (x, T), dict(kw), lab),
+                  ('interdiffusivity', 'getInterdiffusivity', (x0, float(T[0])), dict(kw, removeCache=False), lab),
+                  ('tracerDiffusivity', 'getTracerDiffusivity', (x, T), dict(kw), lab),
+                  ('tracerDiffusivity', 'getTracerDiffusivity', (x0, float(T[0])), dict(kw), lab)]
+    if groups is not None:
+        calls = [c for c in calls if c[0] in groups]
     return calls
 
 
@@ -829,8 +873,8 @@ def _passthrough(F, R, surr, ref, calls, state):
     Every call gets its own copies of the argument arrays (a backend that writes into its arguments - C09 - must not
     couple the two calls)."""
     seen_groups = {}
-    for group, name, args0, kw in calls:
-        mech = {'family': F.family, 'getter': name, 'state': state}
+    for group, name, args0, kw, lab in calls:
+        mech = {'family': F.family, 'getter': name, 'state': state, 'phase': lab}
         args = _copyargs(args0)
         try:
             b = getattr(ref, name)(*_copyargs(args0), **kw)
@@ -853,29 +897,33 @@ def _passthrough(F, R, surr, ref, calls, state):
                 R.worst('untrained_rel_diff', max(_err(u, v, np.max(np.abs(v)) if v.size else 0.0) for u, v in zip(fa, fb)))
         R.check('c20.untrained_passthrough', ok, mech, **detail)
         if fb is not None and all(np.all(np.isfinite(v)) for v in fb):
-            seen_groups[group] = True
+            seen_groups[group + ('' if lab != 'explicit_other' else '_other_phase')] = True
     return seen_groups
 
 
-def _train_all(F, R, s, grid, what=('drivingForce', 'interfacialComposition', 'curvature', 'diffusivity')):
-    """trains the requested quantities; returns the list of those that succeeded"""
+def _train_all(F, R, s, grid, what=('drivingForce', 'interfacialComposition', 'curvature', 'diffusivity'), prec=None, dphase=None, plabel='explicit_first',
+               dlabel='default'):
+    """trains the requested quantities (precipitate quantities for precPhase=prec, diffusivity for phase=dphase; None: argument
+    left out); returns the list of those that succeeded"""
     c = F.case
     done = []
+    prec = F.prec if prec is None else prec
     mech = {'family': F.family, 'op': 'train', 'broadcast': c['broadcast'], 'log': c['logX']}
     shape = {'x_points': int(np.size(grid['x'])) if F.binary else (1 if np.ndim(grid['x']) == 1 else int(len(grid['x']))),
              'T_points': int(np.size(grid['T']))}
+    dkw = {} if dphase is None else {'phase': dphase}
     jobs = []
-    if 'drivingForce' in what:
-        jobs.append(('drivingForce', lambda: s.trainDrivingForce(grid['x'], grid['T'], precPhase=F.prec, logX=c['logX'], broadcast=c['broadcast'])))
+    if 'drivingForce' in what and F.precs:
+        jobs.append(('drivingForce', plabel, lambda: s.trainDrivingForce(grid['x'], grid['T'], precPhase=prec, logX=c['logX'], broadcast=c['broadcast'])))
     if F.binary and 'interfacialComposition' in what:
-        jobs.append(('interfacialComposition', lambda: s.trainInterfacialComposition(grid['Tg'], grid['g'], precPhase=F.prec, logY=c['logX'],
-                                                                                    broadcast=c['broadcast'])))
-    if not F.binary and 'curvature' in what:
-        jobs.append(('curvature', lambda: s.trainCurvature(grid['x'], grid['T'], precPhase=F.prec, logX=c['logX'], broadcast=c['broadcast'])))
+        jobs.append(('interfacialComposition', plabel, lambda: s.trainInterfacialComposition(grid['Tg'], grid['g'], precPhase=prec, logY=c['logX'],
+                                                                                            broadcast=c['broadcast'])))
+    if not F.binary and F.precs and 'curvature' in what:
+        jobs.append(('curvature', plabel, lambda: s.trainCurvature(grid['x'], grid['T'], precPhase=prec, logX=c['logX'], broadcast=c['broadcast'])))
     if 'diffusivity' in what:
-        jobs.append(('diffusivity', lambda: s.trainDiffusivity(grid['x'], grid['T'], logX=c['logX'], broadcast=c['broadcast'])))
-    for q, job in jobs:
-        m = dict(mech, quantity=q)
+        jobs.append(('diffusivity', dlabel, lambda: s.trainDiffusivity(grid['x'], grid['T'], logX=c['logX'], broadcast=c['broadcast'], **dkw)))
+    for q, lab, job in jobs:
+        m = dict(mech, quantity=q, phase=lab)
         if q == 'interfacialComposition':
             m['grid'] = '%s_T x %s_g' % ('multi' if np.size(grid['Tg']) > 1 else 'single', 'multi' if np.size(grid['g']) > 1 else 'single')
         else:
@@ -890,155 +938,165 @@ def _train_all(F, R, s, grid, what=('drivingForce', 'interfacialComposition', 'c
     return done
 
 
-def _query(R, F, s, getter, args, quantity, form, monitor='c20.surrogate_no_exception'):
-    """a trained getter must accept the documented input shapes"""
+def _query(R, F, s, getter, args, quantity, form, kw=None, lab='default', monitor='c20.surrogate_no_exception'):
+    """a trained getter must accept the documented input shapes (and every admissible phase argument)"""
     try:
-        out = getattr(s, getter)(*_copyargs(args))
+        out = getattr(s, getter)(*_copyargs(args), **(kw or {}))
     except Exception as e:
-        R.exception(monitor, e, {'family': F.family, 'op': 'query', 'getter': getter, 'input': form},
-                    args=[_describe(v) if np.ndim(v) else v for v in args])
+        R.exception(monitor, e, {'family': F.family, 'op': 'query', 'getter': getter, 'input': form, 'phase': lab},
+                    args=[_describe(v) if np.ndim(v) else v for v in args], kwargs=kw)
         return None
     R.count(monitor)
     return out
 
 
-def _predictions(R, F, s, trained, pts, tag):
+def _predictions(R, F, s, trained, pts, tag, pkw=None, dkw=None, plab='default', dlab='default'):
     """all trained getters of surrogate s at the points pts=(x, T, g): dict label -> array; vectorised call forms"""
     x, T, g = pts
     out = {}
     if 'drivingForce' in trained:
-        r = _query(R, F, s, 'getDrivingForce', (x, T), 'drivingForce', tag)
+        r = _query(R, F, s, 'getDrivingForce', (x, T), 'drivingForce', tag, pkw, plab)
         if r is not None:
             out['dg'], out['xp'] = np.asarray(r[0], dtype=float), np.asarray(r[1], dtype=float)
     if 'interfacialComposition' in trained and g is not None:
-        r = _query(R, F, s, 'getInterfacialComposition', (T, g), 'interfacialComposition', tag)
+        r = _query(R, F, s, 'getInterfacialComposition', (T, g), 'interfacialComposition', tag, pkw, plab)
         if r is not None:
             out['xpalpha'], out['xpbeta'] = np.asarray(r[0], dtype=float), np.asarray(r[1], dtype=float)
     if 'diffusivity' in trained:
-        r = _query(R, F, s, 'getInterdiffusivity', (x, T), 'diffusivity', tag)
+        r = _query(R, F, s, 'getInterdiffusivity', (x, T), 'diffusivity', tag, dkw, dlab)
         if r is not None:
             out['dnkj'] = np.asarray(r, dtype=float)
-        r = _query(R, F, s, 'getTracerDiffusivity', (x, T), 'diffusivity', tag)
+        r = _query(R, F, s, 'getTracerDiffusivity', (x, T), 'diffusivity', tag, dkw, dlab)
         if r is not None:
             out['dtracer'] = np.asarray(r, dtype=float)
     if 'curvature' in trained:
         X = np.atleast_2d(x)
         Tv = np.atleast_1d(T)
         for i in range(min(len(X), 6)):
-            r = _query(R, F, s, 'curvatureFactor', (np.array(X[i]), float(Tv[i])), 'curvature', 'point(e,)')
+            r = _query(R, F, s, 'curvatureFactor', (np.array(X[i]), float(Tv[i])), 'curvature', 'point(e,)', pkw, plab)
             if r is not None:
                 for f in r._fields:
                     out['curvature.%s#%d' % (f, i)] = np.asarray(getattr(r, f), dtype=float)
             Rr = np.array([0.7e-9, 1.5e-9])
-            r = _query(R, F, s, 'getGrowthAndInterfacialComposition', (np.array(X[i]), float(Tv[i]), 700.0, Rr, 3e-7 / Rr * 1e0), 'curvature', 'point(e,)')
+            r = _query(R, F, s, 'getGrowthAndInterfacialComposition', (np.array(X[i]), float(Tv[i]), 700.0, Rr, 3e-7 / Rr * 1e0), 'curvature', 'point(e,)',
+                       pkw, plab)
             if r is not None:
                 for f in r._fields:
                     out['growth.%s#%d' % (f, i)] = np.asarray(getattr(r, f), dtype=float)
-            r = _query(R, F, s, 'impingementFactor', (np.array(X[i]), float(Tv[i])), 'curvature', 'point(e,)')
+            r = _query(R, F, s, 'impingementFactor', (np.array(X[i]), float(Tv[i])), 'curvature', 'point(e,)', pkw, plab)
             if r is not None:
                 out['impingement.beta#%d' % i] = np.asarray(r, dtype=float)
     return out
 
 
-def _check_trained(R, F, s, trained):
-    """trained getters at their own training inputs vs. the stored training outputs"""
+def _check_trained(R, F, s, trained, prec=None, dkey=None, vec_pkw=None, vec_dkw=None, dnames=None):
+    """trained getters at their own training inputs vs. the stored training outputs.
+    prec / dkey: the phase whose models are checked (precipitate quantities / diffusivity).  Vectorised queries use the phase
+    arguments vec_pkw / vec_dkw (empty: argument left out, only admissible for the default phase), point queries always name
+    the phase explicitly."""
     from kawin.thermo.MultiTherm import CurvatureOutput, _growthRateOutputFromCurvature
+    prec = F.prec if prec is None else prec
+    dkey = (list(s.diffusivityData)[0] if len(s.diffusivityData) else None) if dkey is None else dkey
+    vec_pkw, vec_dkw = dict(vec_pkw or {}), dict(vec_dkw or {})
+    pt_pkw, pt_dkw = {'precPhase': prec}, {'phase': dkey}
+    plv, plp = _sel(F.precs, vec_pkw.get('precPhase')), _sel(F.precs, prec)
+    dlv, dlp = _sel(dnames or [dkey], vec_dkw.get('phase')), _sel(dnames or [dkey], dkey)
     mech0 = {'family': F.family, 'log': F.case['logX'], 'broadcast': F.case['broadcast']}
     nt = []
 
-    def judge(quantity, label, pred, ref, scale, form):
+    def judge(quantity, label, pred, ref, scale, form, lab):
         e = _err(pred, ref, scale)
         R.worst('trained_rel_residual', e if np.isfinite(e) else 1e300)
-        R.check('c20.trained_reproduces', e <= TOL_TRAIN, dict(mech0, quantity=quantity, output=label, input=form,
+        R.check('c20.trained_reproduces', e <= TOL_TRAIN, dict(mech0, quantity=quantity, output=label, input=form, phase=lab,
                                                                cause='shape' if not np.isfinite(e) else 'value'),
                 rel_error=e, predicted=np.asarray(pred), training=np.asarray(ref))
 
     if 'drivingForce' in trained:
-        d = s.drivingForceData[F.prec]
+        d = s.drivingForceData[prec]
         x = np.asarray(d['x'], dtype=float)
         T = np.ravel(np.asarray(d['T'], dtype=float))
         xin = np.ravel(x) if F.binary else x
         dg, xp = np.asarray(d['dg'], dtype=float), np.asarray(d['xp'], dtype=float)
-        r = _query(R, F, s, 'getDrivingForce', (xin, T), 'drivingForce', 'vector')
+        r = _query(R, F, s, 'getDrivingForce', (xin, T), 'drivingForce', 'vector', vec_pkw, plv)
         if r is not None:
-            judge('drivingForce', 'dg', r[0], dg, _colscale(dg), 'vector')
-            judge('drivingForce', 'xp', r[1], xp, _colscale(xp), 'vector')
+            judge('drivingForce', 'dg', r[0], dg, _colscale(dg), 'vector', plv)
+            judge('drivingForce', 'xp', r[1], xp, _colscale(xp), 'vector', plv)
         for i in list(range(len(T)))[:3]:
             xi = float(xin[i]) if F.binary else np.array(xin[i])
-            r = _query(R, F, s, 'getDrivingForce', (xi, float(T[i])), 'drivingForce', 'point')
+            r = _query(R, F, s, 'getDrivingForce', (xi, float(T[i])), 'drivingForce', 'point', pt_pkw, plp)
             if r is not None:
-                judge('drivingForce', 'dg', r[0], dg[i], _colscale(dg), 'point')
-                judge('drivingForce', 'xp', r[1], xp[i], _colscale(xp), 'point')
+                judge('drivingForce', 'dg', r[0], dg[i], _colscale(dg), 'point', plp)
+                judge('drivingForce', 'xp', r[1], xp[i], _colscale(xp), 'point', plp)
         if len(T) >= 4 and np.ptp(dg) > 0:
             nt.append('drivingForce')
     if 'interfacialComposition' in trained:
-        d = s.interfacialCompositionData[F.prec]
+        d = s.interfacialCompositionData[prec]
         T = np.ravel(np.asarray(d['T'], dtype=float))
         g = np.ravel(np.asarray(d['gExtra'], dtype=float))
         xa, xb = np.ravel(np.asarray(d['xpalpha'], dtype=float)), np.ravel(np.asarray(d['xpbeta'], dtype=float))
         if len(T) >= 2:
-            r = _query(R, F, s, 'getInterfacialComposition', (T, g), 'interfacialComposition', 'vector')
+            r = _query(R, F, s, 'getInterfacialComposition', (T, g), 'interfacialComposition', 'vector', vec_pkw, plv)
             if r is not None:
-                judge('interfacialComposition', 'xpalpha', r[0], xa, _colscale(xa), 'vector')
-                judge('interfacialComposition', 'xpbeta', r[1], xb, _colscale(xb), 'vector')
+                judge('interfacialComposition', 'xpalpha', r[0], xa, _colscale(xa), 'vector', plv)
+                judge('interfacialComposition', 'xpbeta', r[1], xb, _colscale(xb), 'vector', plv)
             for i in list(range(len(T)))[:3]:
-                r = _query(R, F, s, 'getInterfacialComposition', (float(T[i]), float(g[i])), 'interfacialComposition', 'point')
+                r = _query(R, F, s, 'getInterfacialComposition', (float(T[i]), float(g[i])), 'interfacialComposition', 'point', pt_pkw, plp)
                 if r is not None:
-                    judge('interfacialComposition', 'xpalpha', r[0], xa[i], _colscale(xa), 'point')
-                    judge('interfacialComposition', 'xpbeta', r[1], xb[i], _colscale(xb), 'point')
+                    judge('interfacialComposition', 'xpalpha', r[0], xa[i], _colscale(xa), 'point', plp)
+                    judge('interfacialComposition', 'xpbeta', r[1], xb[i], _colscale(xb), 'point', plp)
             if len(T) >= 4 and np.ptp(xa) > 0:
                 nt.append('interfacialComposition')
         else:
             R.observe('training_set_filtered_to_less_than_two')
     if 'diffusivity' in trained:
-        ph = list(s.diffusivityData)[0]
-        d = s.diffusivityData[ph]
+        d = s.diffusivityData[dkey]
         x = np.asarray(d['x'], dtype=float)
         T = np.ravel(np.asarray(d['T'], dtype=float))
         xin = np.ravel(x) if F.binary else x
         dn, dtr = np.asarray(d['dnkj'], dtype=float), np.asarray(d['dtracer'], dtype=float)
-        r = _query(R, F, s, 'getInterdiffusivity', (xin, T), 'diffusivity', 'vector')
+        r = _query(R, F, s, 'getInterdiffusivity', (xin, T), 'diffusivity', 'vector', vec_dkw, dlv)
         if r is not None:
-            judge('interdiffusivity', 'dnkj', r, dn, _colscale(dn), 'vector')
-        r = _query(R, F, s, 'getTracerDiffusivity', (xin, T), 'diffusivity', 'vector')
+            judge('interdiffusivity', 'dnkj', r, dn, _colscale(dn), 'vector', dlv)
+        r = _query(R, F, s, 'getTracerDiffusivity', (xin, T), 'diffusivity', 'vector', vec_dkw, dlv)
         if r is not None:
-            judge('tracerDiffusivity', 'dtracer', r, dtr, _colscale(dtr), 'vector')
+            judge('tracerDiffusivity', 'dtracer', r, dtr, _colscale(dtr), 'vector', dlv)
         for i in list(range(len(T)))[:3]:
             xi = float(xin[i]) if F.binary else np.array(xin[i])
-            r = _query(R, F, s, 'getInterdiffusivity', (xi, float(T[i])), 'diffusivity', 'point')
+            r = _query(R, F, s, 'getInterdiffusivity', (xi, float(T[i])), 'diffusivity', 'point', pt_dkw, dlp)
             if r is not None:
-                judge('interdiffusivity', 'dnkj', r, dn[i], _colscale(dn), 'point')
-            r = _query(R, F, s, 'getTracerDiffusivity', (xi, float(T[i])), 'diffusivity', 'point')
+                judge('interdiffusivity', 'dnkj', r, dn[i], _colscale(dn), 'point', dlp)
+            r = _query(R, F, s, 'getTracerDiffusivity', (xi, float(T[i])), 'diffusivity', 'point', pt_dkw, dlp)
             if r is not None:
-                judge('tracerDiffusivity', 'dtracer', r, dtr[i], _colscale(dtr), 'point')
+                judge('tracerDiffusivity', 'dtracer', r, dtr[i], _colscale(dtr), 'point', dlp)
         if len(T) >= 4 and np.ptp(dn) > 0:
             nt.append('diffusivity')
     if 'curvature' in trained:
-        d = s.curvatureData[F.prec]
+        d = s.curvatureData[prec]
         X = np.asarray(d['x'], dtype=float)
         T = np.ravel(np.asarray(d['T'], dtype=float))
         names = {'dc': 'dc', 'mc': 'mc', 'gba': 'gba', 'beta': 'beta', 'c_eq_alpha': 'xEqAlpha', 'c_eq_beta': 'xEqBeta'}
         ref = {f: np.asarray(d[k], dtype=float) for f, k in names.items()}
         if len(T) >= 2:
             for i in range(len(T)):
-                c = _query(R, F, s, 'curvatureFactor', (np.array(X[i]), float(T[i])), 'curvature', 'point(e,)')
+                kw, lab = (vec_pkw, plv) if i % 2 == 0 else (pt_pkw, plp)       # alternate: argument as in the vector form / named explicitly
+                c = _query(R, F, s, 'curvatureFactor', (np.array(X[i]), float(T[i])), 'curvature', 'point(e,)', kw, lab)
                 if c is None:
                     continue
                 for f in names:
-                    judge('curvature', f, getattr(c, f), ref[f][i], _colscale(ref[f]), 'point')
+                    judge('curvature', f, getattr(c, f), ref[f][i], _colscale(ref[f]), 'point', lab)
                 if i < 4:
                     stored = CurvatureOutput(**{f: ref[f][i] for f in names})
                     Rr = np.array([0.6e-9, 1e-9, 4e-9])
                     gE = 2 * 0.023 * 6.57e-6 / Rr
                     exp = _growthRateOutputFromCurvature(np.array(X[i]), 800.0, Rr, gE, stored)
-                    got = _query(R, F, s, 'getGrowthAndInterfacialComposition', (np.array(X[i]), float(T[i]), 800.0, Rr, gE), 'curvature', 'point(e,)')
+                    got = _query(R, F, s, 'getGrowthAndInterfacialComposition', (np.array(X[i]), float(T[i]), 800.0, Rr, gE), 'curvature', 'point(e,)', kw, lab)
                     if got is not None:
                         for f in exp._fields:
                             ev = np.asarray(getattr(exp, f), dtype=float)
-                            judge('growth', f, getattr(got, f), ev, np.max(np.abs(ev)), 'point')
-                    b = _query(R, F, s, 'impingementFactor', (np.array(X[i]), float(T[i])), 'curvature', 'point(e,)')
+                            judge('growth', f, getattr(got, f), ev, np.max(np.abs(ev)), 'point', lab)
+                    b = _query(R, F, s, 'impingementFactor', (np.array(X[i]), float(T[i])), 'curvature', 'point(e,)', kw, lab)
                     if b is not None:
-                        judge('impingement', 'beta', b, ref['beta'][i], _colscale(ref['beta']), 'point')
+                        judge('impingement', 'beta', b, ref['beta'][i], _colscale(ref['beta']), 'point', lab)
             if len(T) >= 4 and np.ptp(ref['mc']) > 0:
                 nt.append('curvature')
         else:
@@ -1046,17 +1104,9 @@ def _check_trained(R, F, s, trained):
     return nt
 
 
-def _training_points(F, s, trained):
-    """(x, T, g) arrays of stored training inputs in the documented vector form"""
-    x = T = g = Tg = None
-    for q, store in (('drivingForce', getattr(s, 'drivingForceData', {})), ('diffusivity', getattr(s, 'diffusivityData', {})),
-                     ('curvature', getattr(s, 'curvatureData', {}))):
-        if q in trained and x is None and len(store):
-            d = store[F.prec] if F.prec in store else store[list(store)[0]]
-            x = np.asarray(d['x'], dtype=float)
-            x = np.ravel(x) if F.binary else x
-            T = np.ravel(np.asarray(d['T'], dtype=float))
-    return x, T
+def _stored_inputs(F, d):
+    x = np.asarray(d['x'], dtype=float)
+    return (np.ravel(x) if F.binary else x), np.ravel(np.asarray(d['T'], dtype=float))
 
 
 def _run_surrogate(case, R):
@@ -1066,98 +1116,145 @@ def _run_surrogate(case, R):
     box = F.box(rng)
     key0 = 'surr-%s-%s-%s-%s-%d' % (F.family, 'log' if case['logX'] else 'lin', 'bc' if case['broadcast'] else 'pair', case['kernel']['kernel'], case['idx'])
     R.info.update({'family': F.family, 'logX': case['logX'], 'broadcast': case['broadcast'], 'kernel': case['kernel']})
+    quiet = core.CaseResult({})
 
-    # ---------------------------------------------------------------- (a) nothing trained
-    sA = F.surrogate(F.therm())
+    # ---------------------------------------------------------------- (a) nothing trained: every getter, every admissible phase argument
+    th0 = F.therm()
+    dnames = list(F.dphase_names) if F.dphase_names else [th0.phases[0]]
+    sA = F.surrogate(th0)
     thB = F.therm()
-    groups = _passthrough(F, R, sA, thB, _untrained_calls(F, rng, box), 'nothing_trained')
+    groups = _passthrough(F, R, sA, thB, _untrained_calls(F, rng, box, dnames), 'nothing_trained')
     for gname in groups:
         R.add_nontrivial(key0 + '-untrained-' + gname)
 
     # ---------------------------------------------------------------- (b) trained reproduces its training data
+    # which phases are trained: indices into the admissible values (default: the first one of each kind)
+    tprec = [F.precs[i] for i in case.get('train_prec', [0]) if i < len(F.precs)]
+    tdiff = [dnames[i] for i in case.get('train_diff', [0]) if i < len(dnames)]
+    R.info['trained_phases'] = {'precPhase': tprec, 'phase': tdiff}
     grid = F.grid(rng, box)
-    s = F.surrogate(F.therm())
-    trained = _train_all(F, R, s, grid)
-    R.info['trained'] = trained
-    R.info['training_points'] = {q: int(len(np.ravel(np.asarray(st[list(st)[0]]['T'], dtype=float))))
-                                 for q, st in (('drivingForce', s.drivingForceData), ('diffusivity', s.diffusivityData),
+    s, sM = F.surrogate(F.therm()), F.surrogate(F.therm())      # sM: mirror, drives a twin backend through the same training calls
+    trained = {}                                                # (kind, phase) -> quantities trained
+    for p in tprec:
+        for S_, R_ in ((s, R), (sM, quiet)):
+            done = _train_all(F, R_, S_, grid, what=('drivingForce', 'interfacialComposition', 'curvature'), prec=p, plabel=_sel(F.precs, p))
+            if S_ is s:
+                trained[('prec', p)] = done
+    for ph in tdiff:
+        # the matrix phase of the one-phase families is trained with the argument left out, everything else by name
+        dph = None if (F.dphase_names is None) else ph
+        for S_, R_ in ((s, R), (sM, quiet)):
+            done = _train_all(F, R_, S_, grid, what=('diffusivity',), dphase=dph, dlabel=_sel(dnames, dph))
+            if S_ is s:
+                trained[('diff', ph)] = done
+    R.info['trained'] = {'%s:%s' % k: v for k, v in trained.items()}
+    # what was NOT trained still passes through (before the trained getters are queried: same backend history as the mirror)
+    rest_p = [p for p in F.precs if not trained.get(('prec', p))]
+    rest_d = [ph for ph in dnames if not trained.get(('diff', ph))]
+    if rest_p or rest_d:
+        calls = _untrained_calls(F, rng, box, dnames, precs=rest_p, dphases=rest_d,
+                                 default_prec=bool(F.precs) and F.precs[0] in rest_p, default_diff=dnames[0] in rest_d)
+        groups = _passthrough(F, R, s, sM.therm, calls, 'other_phase_trained' if trained else 'nothing_trained')
+        for gname in groups:
+            R.add_nontrivial(key0 + '-rest-' + gname)
+    nt_all = []
+    for (kind, ph), qs in trained.items():
+        if not qs:
+            continue
+        first = (ph == F.precs[0]) if kind == 'prec' else (ph == dnames[0])
+        if kind == 'prec':
+            nt = _check_trained(R, F, s, qs, prec=ph, vec_pkw={} if first else {'precPhase': ph}, dnames=dnames)
+        else:
+            nt = _check_trained(R, F, s, qs, dkey=ph, vec_dkw={} if first else {'phase': ph}, dnames=dnames)
+            if first and F.dphase_names:           # first phase named explicitly in the vector form as well
+                _check_trained(R, F, s, qs, dkey=ph, vec_dkw={'phase': ph}, dnames=dnames)
+        for q in nt:
+            nt_all.append((kind, ph, q))
+            R.add_nontrivial(key0 + '-trained-%s-%s' % (q, _sel(F.precs if kind == 'prec' else dnames, ph)))
+    R.info['training_points'] = {'%s:%s' % (k, p): int(len(np.ravel(np.asarray(st[p]['T'], dtype=float))))
+                                 for k, st in (('drivingForce', s.drivingForceData), ('diffusivity', s.diffusivityData),
                                                ('curvature', getattr(s, 'curvatureData', {})),
-                                               ('interfacialComposition', getattr(s, 'interfacialCompositionData', {}))) if len(st)}
-    nt = _check_trained(R, F, s, trained)
-    for q in nt:
-        R.add_nontrivial(key0 + '-trained-' + q)
+                                               ('interfacialComposition', getattr(s, 'interfacialCompositionData', {}))) for p in st}
 
     # ---------------------------------------------------------------- (c) rebuilt from its JSON file
-    if trained:
+    if any(trained.values()):
         fn = os.path.join(scratch, 'c20_%d_%d_surr' % (os.getpid(), case['idx'])) + ('.json' if case['idx'] % 2 else '')
+        tdesc = '+'.join(sorted(set(q for qs in trained.values() for q in qs)))
         mj = {'family': F.family, 'op': 'json'}
         s2 = None
         try:
             try:
                 s.toJson(fn)
             except Exception as e:
-                R.exception('c20.surrogate_no_exception', e, dict(mj, step='toJson', trained='+'.join(trained)))
+                R.exception('c20.surrogate_no_exception', e, dict(mj, step='toJson', trained=tdesc))
             else:
                 s2 = F.surrogate(F.therm())
                 try:
                     s2.fromJson(fn)
                     R.count('c20.surrogate_no_exception')
                 except Exception as e:
-                    R.exception('c20.surrogate_no_exception', e, dict(mj, step='fromJson', trained='+'.join(trained)))
+                    R.exception('c20.surrogate_no_exception', e, dict(mj, step='fromJson', trained=tdesc))
                     s2 = None
         finally:
             _rm(fn)
         if s2 is not None:
-            xt, Tt = _training_points(F, s, trained)
-            nonic = [q for q in trained if q != 'interfacialComposition']
-            sets = []
-            if xt is not None and nonic:
-                sets.append(('training', (xt, Tt, None), nonic))
-            if 'interfacialComposition' in trained:
-                d = s.interfacialCompositionData[F.prec]
-                Ti, gi = np.ravel(np.asarray(d['T'], dtype=float)), np.ravel(np.asarray(d['gExtra'], dtype=float))
-                if len(Ti) >= 1:
-                    sets.append(('training', (None, Ti, gi), ['interfacialComposition']))
-            sets.append(('random', F.random_points(rng, box, 8), trained))
-            for tag, pts, tr in sets:
-                A = _predictions(R, F, s, tr, pts, 'vector')
-                B = _predictions(R, F, s2, tr, pts, 'vector')
-                for label in A:
-                    a = A[label]
-                    mj2 = {'family': F.family, 'output': label.split('#')[0], 'points': tag, 'log': case['logX']}
-                    if label not in B:
-                        R.check('c20.json_rebuild', False, dict(mj2, cause='rebuilt_getter_raised'))
-                        continue
-                    b = B[label]
-                    e = _err(b, a, np.max(np.abs(a)) if a.size else 0.0)
-                    R.worst('json_rel_diff', e if np.isfinite(e) else 1e300)
-                    R.check('c20.json_rebuild', e <= TOL_JSON, mj2, rel_error=e, original=a, rebuilt=b)
-            for q in nt:
-                R.add_nontrivial(key0 + '-json-' + q)
+            rnd = F.random_points(rng, box, 8)
+            for (kind, ph), qs in trained.items():
+                if not qs:
+                    continue
+                lab = _sel(F.precs if kind == 'prec' else dnames, ph)
+                first = lab == 'explicit_first'
+                sets = []
+                if kind == 'prec':
+                    kws = [dict(pkw={'precPhase': ph}, plab=lab)] + ([dict(pkw={}, plab='default')] if first else [])
+                    nonic = [q for q in qs if q != 'interfacialComposition']
+                    store = s.drivingForceData if 'drivingForce' in qs else getattr(s, 'curvatureData', {})
+                    if nonic and ph in store:
+                        xt, Tt = _stored_inputs(F, store[ph])
+                        sets.append(('training', (xt, Tt, None), nonic))
+                    if 'interfacialComposition' in qs:
+                        d = s.interfacialCompositionData[ph]
+                        Ti, gi = np.ravel(np.asarray(d['T'], dtype=float)), np.ravel(np.asarray(d['gExtra'], dtype=float))
+                        if len(Ti) >= 1:
+                            sets.append(('training', (None, Ti, gi), ['interfacialComposition']))
+                else:
+                    kws = [dict(dkw={'phase': ph}, dlab=lab)] + ([dict(dkw={}, dlab='default')] if first else [])
+                    xt, Tt = _stored_inputs(F, s.diffusivityData[ph])
+                    sets.append(('training', (xt, Tt, None), qs))
+                sets.append(('random', rnd, qs))
+                for kwi, kw in enumerate(kws):
+                    for tag, pts, tr in sets:
+                        A = _predictions(R, F, s, tr, pts, 'vector', **kw)
+                        B = _predictions(R, F, s2, tr, pts, 'vector', **kw)
+                        for label in A:
+                            a = A[label]
+                            mj2 = {'family': F.family, 'output': label.split('#')[0], 'points': tag, 'log': case['logX'],
+                                   'phase': kw.get('plab', kw.get('dlab'))}
+                            if label not in B:
+                                R.check('c20.json_rebuild', False, dict(mj2, cause='rebuilt_getter_raised'))
+                                continue
+                            b = B[label]
+                            e = _err(b, a, np.max(np.abs(a)) if a.size else 0.0)
+                            R.worst('json_rel_diff', e if np.isfinite(e) else 1e300)
+                            R.check('c20.json_rebuild', e <= TOL_JSON, mj2, rel_error=e, original=a, rebuilt=b)
+            # the rebuilt surrogate reproduces the training data of every phase as well (explicit phase arguments)
+            for (kind, ph), qs in trained.items():
+                if qs and kind == 'diff':
+                    _check_trained(R, F, s2, qs, dkey=ph, vec_dkw={'phase': ph}, dnames=dnames)
+                elif qs and kind == 'prec' and len(F.precs) > 1:
+                    _check_trained(R, F, s2, qs, prec=ph, vec_pkw={'precPhase': ph}, dnames=dnames)
+            for kind, ph, q in nt_all:
+                R.add_nontrivial(key0 + '-json-%s-%s' % (q, _sel(F.precs if kind == 'prec' else dnames, ph)))
 
-    # ---------------------------------------------------------------- (d) partially trained: the rest still passes through
-    if F.family == 'multiphase':
-        # one phase trained, the other phase of the same quantity is not
-        sA, sB = F.surrogate(F.therm()), F.surrogate(F.therm())
-        g2 = F.grid(rng, box)
-        okA = _train_all(F, R, sA, g2, what=('drivingForce', 'curvature'))
-        _train_all(F, core.CaseResult({}), sB, g2, what=('drivingForce', 'curvature'))
-        other = 'MG5SI6_B_DP'
-        x, T, _ = F.random_points(rng, box, 3)
-        calls = [('drivingForce_other_phase', 'getDrivingForce', (x, T), {'precPhase': other}),
-                 ('curvature_other_phase', 'curvatureFactor', (np.array(x[0]), float(T[0])), {'precPhase': other}),
-                 ('impingement_other_phase', 'impingementFactor', (np.array(x[1]), float(T[1])), {'precPhase': other}),
-                 ('interdiffusivity', 'getInterdiffusivity', (x, T), {}),
-                 ('tracerDiffusivity', 'getTracerDiffusivity', (x, T), {})]
-        groups = _passthrough(F, R, sA, sB.therm, calls, 'other_phase_trained')
-    else:
+    # ---------------------------------------------------------------- (d) only the driving force trained: the rest still passes through
+    if F.precs:
         sA, sB = F.surrogate(F.therm()), F.surrogate(F.therm())
         _train_all(F, R, sA, grid, what=('drivingForce',))
-        _train_all(F, core.CaseResult({}), sB, grid, what=('drivingForce',))
+        _train_all(F, quiet, sB, grid, what=('drivingForce',))
         only = ('interfacialComposition', 'curvature', 'growth', 'impingement', 'interdiffusivity', 'tracerDiffusivity')
-        groups = _passthrough(F, R, sA, sB.therm, _untrained_calls(F, rng, box, only=only), 'driving_force_trained')
-    for gname in groups:
-        R.add_nontrivial(key0 + '-partial-' + gname)
+        groups = _passthrough(F, R, sA, sB.therm, _untrained_calls(F, rng, box, dnames, groups=only), 'driving_force_trained')
+        for gname in groups:
+            R.add_nontrivial(key0 + '-partial-' + gname)
     R.set_nontrivial(False)
 
 
